@@ -826,7 +826,11 @@ pub fn do_cli(sh: &Arc<Shared>, _local: &mut TaskLocal, op: &Op) -> OpResult {
 /// hash and count, or all Err)
 fn file_kinds(sh: &Arc<Shared>, kind: u8) -> OpResult {
     let dir = sh.scratch_dir()?;
-    let (path, name): (std::path::PathBuf, &'static str) = match kind % 7 {
+    if kind % 9 == 8 {
+        return fifo_kind(sh);
+    }
+    let (path, name): (std::path::PathBuf, &'static str) = match kind % 9 {
+        7 => ("/proc/crypto".into(), "proc_multi_read"),
         0 => ("/proc/version".into(), "proc_file"),
         1 => ("/dev/null".into(), "dev_null"),
         2 => (dir.clone(), "directory"),
@@ -843,7 +847,7 @@ fn file_kinds(sh: &Arc<Shared>, kind: u8) -> OpResult {
             (p, "empty_regular")
         }
     };
-    if matches!(kind % 7, 0 | 1 | 4) && !path.exists() {
+    if matches!(kind % 9, 0 | 1 | 4 | 7) && !path.exists() {
         sh.probe("special_file_absent_skipped");
         return Err(OpErr::Skip);
     }
@@ -865,6 +869,7 @@ fn file_kinds(sh: &Arc<Shared>, kind: u8) -> OpResult {
         "missing" => "special_missing",
         "large_unmappable_sysfs" => "special_large_unmappable_sysfs",
         "symlink_loop" => "special_symlink_loop",
+        "proc_multi_read" => "special_proc_multi_read",
         _ => "special_empty_regular",
     });
     let oks: Vec<_> = results.iter().filter_map(|r| r.as_ref().ok()).collect();
@@ -993,4 +998,49 @@ fn sys_fault(sh: &Arc<Shared>, target: u8, data: usize, syscall: u8, errno: u8, 
     }
     sh.shape(Fnv::of(&[7, target % 5, syscall % 3, errno % 5, when.min(6) as u8, injected as u8, ok_exit as u8, (content.len() >= 16384) as u8]));
     Ok(Fnv::of(so.as_bytes()) ^ out.status.code().unwrap_or(-1) as u64)
+}
+
+
+/// a FIFO whose writer delivers the data in two pieces: each of the three adapters must hash all of it
+fn fifo_kind(sh: &Arc<Shared>) -> OpResult {
+    let dir = sh.scratch_dir()?;
+    let data: Vec<u8> = (0..150_000usize).map(|i| (i as u8).wrapping_mul(17) ^ (i >> 8) as u8).collect();
+    let want = *blake3::hash(&data).as_bytes();
+    let pool = rayon_core::ThreadPoolBuilder::new().num_threads(2).build().map_err(|e| OpErr::Harness(e.to_string()))?;
+    for which in 0..3 {
+        let p = dir.join(format!("fifo{which}"));
+        let c = std::ffi::CString::new(p.as_os_str().as_bytes()).unwrap();
+        if unsafe { libc::mkfifo(c.as_ptr(), 0o600) } != 0 {
+            sh.probe("special_file_absent_skipped");
+            return Err(OpErr::Skip);
+        }
+        let d2 = data.clone();
+        let p2 = p.clone();
+        let writer = std::thread::spawn(move || {
+            if let Ok(mut f) = std::fs::OpenOptions::new().write(true).open(&p2) {
+                let _ = f.write_all(&d2[..70_000]);
+                let _ = f.flush();
+                std::thread::sleep(std::time::Duration::from_millis(40));
+                let _ = f.write_all(&d2[70_000..]);
+            }
+        });
+        let mut h = blake3::Hasher::new();
+        let r: std::io::Result<()> = match which {
+            0 => h.update_mmap(&p).map(|_| ()),
+            1 => pool.install(|| h.update_mmap_rayon(&p).map(|_| ())),
+            _ => std::fs::File::open(&p).and_then(|f| h.update_reader(f).map(|_| ())),
+        };
+        let _ = writer.join();
+        let _ = std::fs::remove_file(&p);
+        match r {
+            Err(e) => return viol("result-mismatch", format!("FIFO: adapter {which} failed: {e}")),
+            Ok(()) => {
+                if h.count() != data.len() as u64 || *h.finalize().as_bytes() != want {
+                    return viol("result-mismatch", format!("FIFO delivered in two writes: adapter {} hashed {} of {} bytes", ["update_mmap", "update_mmap_rayon", "update_reader"][which], h.count(), data.len()));
+                }
+            }
+        }
+    }
+    sh.probe("special_fifo_two_writes");
+    Ok(Fnv::of(&want))
 }
